@@ -158,8 +158,12 @@ Definition upd_cond (c : hconf) (st : hstate) (T : Z) : bool :=
 (* the state after `if self._update_source_sample_period(T): self._update_buffer_len()`.
    The freshly estimated input period [osp] and the resulting buffer length [olen] are float
    computations: oracle inputs recorded from the implementation run. *)
+(* An estimate that rounds to zero microseconds (a burst stamped right before T) is discarded and the
+   estimate retried at a later tick.  (Before the fix recorded as known finding C08-zero-input-period the
+   code stored the zero period and _update_buffer_len then died with ZeroDivisionError: the tick emitted
+   nothing for this source and a supervisor dropped the series.) *)
 Definition hupdate (c : hconf) (st : hstate) (T osp olen : Z) : hstate :=
-  if upd_cond c st T then
+  if upd_cond c st T && negb (osp =? 0) then
     mkH (if olen =? h_maxlen st then h_buf st else lastn (Z.to_nat olen) (h_buf st))
         olen (Some osp) (h_start st) (h_recv st)
   else st.
